@@ -2,6 +2,7 @@ package props
 
 import (
 	"fmt"
+	"go/constant"
 	"go/token"
 
 	"elaverif/ssau"
@@ -567,7 +568,7 @@ func (c *Ctx) dupInputSetInHelper(cbs *ssa.Function) bool {
 					}
 					found = true
 					isMap := func(v ssa.Value) bool { return v == ssa.Value(prm) }
-					c.iterGuard("G1-dupinput", "CheckBlockSanity|per-input absent-or-reject", h, "existingTxInputs lookup == absent", lookupAbsent(isMap), 0)
+					c.iterGuardOpt("G1-dupinput", "CheckBlockSanity|per-input absent-or-reject", h, "existingTxInputs lookup == absent", lookupAbsent(isMap), 0, G1Opt{BoolSuccess: completionValue(h)})
 					keyOK := func(k ssa.Value) bool { return methodCallNamed(ssau.Unwrap(k), "ReferKey") }
 					c.R.Check("G1-dupinput", "CheckBlockSanity|lookup key = ReferKey()", keyOK(lookup.Index), c.posOf(lookup), "the duplicate set must be keyed by input.ReferKey() (outpoint), not by a value that includes the sequence")
 					c.R.Check("G1-dupinput", "CheckBlockSanity|insert key = lookup key", update.Key == lookup.Index || (keyOK(update.Key) && sameCallRecv(update.Key, lookup.Index)), c.posOf(update), "the inserted key must be the looked-up key")
@@ -585,6 +586,24 @@ func (c *Ctx) dupInputSetInHelper(cbs *ssa.Function) bool {
 					return true
 				}
 			}
+		}
+	}
+	return false
+}
+
+// completionValue: for a helper with a bool verdict, the constant it returns when it runs to completion (the return
+// outside every loop); that value means "passed". False when the helper has no such return (error verdicts ignore it).
+func completionValue(h *ssa.Function) bool {
+	idx := ssau.VerdictIndex(h.Signature)
+	if idx < 0 {
+		return false
+	}
+	for _, ret := range ssau.Returns(h) {
+		if len(loopHeaders(ret.Block())) != 0 || idx >= len(ret.Results) {
+			continue
+		}
+		if k, ok := ret.Results[idx].(*ssa.Const); ok && k.Value != nil && k.Value.Kind() == constant.Bool {
+			return constant.BoolVal(k.Value)
 		}
 	}
 	return false
